@@ -1335,7 +1335,7 @@ COMPONENTS = {
 }
 TIERS = {
     'quick': {'runs': 3600, 'wall_cap': 400},
-    'thorough': {'runs': 90000, 'wall_cap': 3600},
+    'thorough': {'runs': 60000, 'wall_cap': 3600},
 }
 EXPECTED_PROBES = ['second-use-of-stateful-shared-parser', 'RecursionError-raised',
                    'interrupt-armed-but-parse-ended-first', 'reentrant-inner-parse-compared', 'tolerant-parse',
